@@ -33,6 +33,16 @@ class DjangoModelWithoutDunderStrTransformer(
         if self.implements_dunder_str(original_node):
             return updated_node
 
+        # When driven by tool results (which point at the class name), only
+        # reported classes are changed
+        if self.results is not None and not any(
+            result.match_location(
+                self.node_position(original_node.name), original_node.name
+            )
+            for result in self.results
+        ):
+            return updated_node
+
         self.report_change(original_node)
 
         new_body = updated_node.body.with_changes(
